@@ -91,6 +91,12 @@ CheckRes(c, L, verify) == CheckResX(c, L, verify, TRUE)
    still serve blocks; a share the verifier calls good always can. *)
 DlMustServe(sh) == sh.present /\ VerifyShare(sh) = "good"
 DlMayServe(sh) == sh.present /\ Val(sh, "version") = "g" /\ Val(sh, "data") = "g"
+\* The real downloader works block by block: a share with one flipped data byte still serves its other
+\* blocks, so k shares none of which is entirely valid can together yield every segment.  The MC model
+\* treats a damaged data section as unusable as a whole (DlMayServe); trace validation only requires that
+\* a successful repair had k share numbers that could serve at least some block (DlMayServeSome).
+DlMayServeSome(sh) == sh.present /\ Val(sh, "version") = "g" /\ "foreign_blocks" \notin sh.dmg
+MayReadSome(c, L) == Cardinality(ShnumsOf({p \in Positions(c) : DlMayServeSome(At(L, p))})) >= c.K
 MustRead(c, L) == Cardinality(ShnumsOf({p \in Positions(c) : DlMustServe(At(L, p))})) >= c.K
 MayRead(c, L)  == Cardinality(ShnumsOf({p \in Positions(c) : DlMayServe(At(L, p))})) >= c.K
 \* answers a read may give: never wrong bytes
